@@ -1949,12 +1949,8 @@ class ReportStream(C.Stream):
 
 
 def streams(ctx):
-<<<<<<< HEAD
-    return [Glob(), Filter(), DirLoad(), ReportStream()]
-=======
     from props import _c12seq
-    return [Glob(), Filter(), ReportStream(), _c12seq.ReportSeq()]
->>>>>>> w/R5F
+    return [Glob(), Filter(), DirLoad(), ReportStream(), _c12seq.ReportSeq()]
 
 
 # ----------------------------------------------------------------------------------------------
